@@ -244,7 +244,7 @@ Print Assumptions C10_batch_is_a_split.
 
 Theorem C10_rr_count_no_overflow : forall ty s rs p' us e,
   flat (proc_new ty s) rs = (p', us, e) ->
-  N.of_nat (length rs) < 2 ^ 64 -> p_count p' < 2 ^ rr_count_bits.
+  N.of_nat (length rs) < 2 ^ target_pointer_width -> p_count p' < 2 ^ rr_count_bits.
 Proof. exact rr_count_no_overflow. Qed.
 Print Assumptions C10_rr_count_no_overflow.
 
@@ -298,7 +298,7 @@ Theorem C10_serial_range_invalid_spec : forall s e,
 Proof. exact serial_range_invalid_spec. Qed.
 Print Assumptions C10_serial_range_invalid_spec.
 
-Theorem C10_rr_count_width : 64 <= rr_count_bits.
+Theorem C10_rr_count_width : target_pointer_width <= rr_count_bits.
 Proof. exact rr_count_width. Qed.
 Print Assumptions C10_rr_count_width.
 
